@@ -3,6 +3,7 @@
   `add_cds_feature` call adds exactly the pairs the spec's replay adds.
 -/
 import ASV.Proofs.LookupValid
+import ASV.Proofs.Bisect
 namespace ASV.Lookup
 open ASV
 
@@ -274,5 +275,47 @@ theorem foldlM_loose_of_strict : ∀ (ops : List Op) (r0 r : Rec), ops.foldlM st
 /-- whatever `run` accepts, `runLoose` does in the same way -/
 theorem runLoose_of_run {len : Int} {ops : List Op} {r : Rec} (h : run len ops = .ok r) : runLoose len ops = .ok r :=
   foldlM_loose_of_strict ops _ r h
+
+/-! ### the literal binary searches on the sorted gene list -/
+
+/-- in a sorted gene list, once a gene fails a test that is monotone along the order, all later ones fail it -/
+theorem sorted_dropWhile_fails {fs : List Gene} (hs : Sorted fs) (keep : Gene → Bool)
+    (hmono : ∀ a b : Gene, locLt b.loc a.loc = false → keep a = false → keep b = false) :
+    ∀ y ∈ fs.dropWhile keep, keep y = false := by
+  intro y hy
+  have hsub : (fs.dropWhile keep).Sublist fs := List.dropWhile_sublist _
+  have hsd := hs.sublist hsub
+  match hd : fs.dropWhile keep with
+  | [] => rw [hd] at hy; simp at hy
+  | y0 :: rest =>
+    have h0 : keep y0 = false := by
+      have := List.head_dropWhile_not keep (l := fs) (by rw [hd]; simp)
+      simpa [hd] using this
+    rw [hd] at hy hsd
+    rcases List.mem_cons.1 hy with rfl | hr
+    · exact h0
+    · exact hmono y0 y ((List.pairwise_cons.1 hsd).1 y hr) h0
+
+/-- `bisect.bisect_right(self._cds_features, cds)` run literally returns the insertion point the model uses -/
+theorem bisect_right_insertion {fs : List Gene} (hs : Sorted fs) (g : Gene) :
+    Bisect.bisect (fun f : Gene => !locLt g.loc f.loc) fs = (fs.takeWhile fun f => !locLt g.loc f.loc).length := by
+  apply Bisect.bisect_eq _ _ _ 0 (Bisect.partitioned_takeWhile _ _ ?_) (Nat.zero_le _)
+  apply sorted_dropWhile_fails hs
+  intro a b hab ha
+  have ha' : locLt g.loc a.loc = true := by simpa using ha
+  rw [locLt_true_iff] at ha'
+  rw [locLt_false_iff] at hab
+  have : locLt g.loc b.loc = true := by rw [locLt_true_iff]; omega
+  simp [this]
+
+/-- `bisect.bisect_left(features, dummy, lo=linear_start)` run literally on the features from `linear_start` on
+    returns the start index the lookup model uses -/
+theorem bisect_left_lookup {linear : List Gene} (hs : Sorted linear) (q : Loc) :
+    Bisect.bisect (fun f : Gene => locLt f.loc q) linear = (linear.takeWhile fun f => locLt f.loc q).length := by
+  apply Bisect.bisect_eq _ _ _ 0 (Bisect.partitioned_takeWhile _ _ ?_) (Nat.zero_le _)
+  apply sorted_dropWhile_fails hs
+  intro a b hab ha
+  rw [locLt_false_iff] at hab ha ⊢
+  omega
 
 end ASV.Lookup
